@@ -39,6 +39,7 @@ impl Sub for Freshness {
     let mut tokens: HashSet<String> = HashSet::with_capacity(n);
     let mut ones = vec![0u32; nl * 8];
     let mut byte_values: Vec<[bool; 256]> = vec![[false; 256]; nl];
+    let mut value_counts = [0u64; 256];
     let big = if c.mode == 3 { "x".repeat(70_000) } else { "same payload every time".to_string() };
     // claims whose NAMES and VALUES look like randomness a builder might be tempted to use (OpenID Connect's `nonce`, a
     // hex `jti`, `seed`, `iv`, `rnd`): they are payload, never nonce material
@@ -110,6 +111,7 @@ impl Sub for Freshness {
       let nonce = payload[..nl].to_vec();
       for (j, b) in nonce.iter().enumerate() {
         byte_values[j][*b as usize] = true;
+        value_counts[*b as usize] += 1;
         for bit in 0..8 {
           if b & (1 << bit) != 0 {
             ones[j * 8 + bit] += 1;
@@ -146,6 +148,18 @@ impl Sub for Freshness {
       for (pos, k) in ones.iter().enumerate() {
         if ((*k as f64) - (n as f64) / 2.0).abs() > bound {
           vio!("C10:nonce-bit-not-uniform:{}:{}:{}", p.label(), c.layer.label(), mode; "bit {} of byte {} of the nonce is 1 in {} of {} builds (allowed {:.0} +- {:.0})", pos % 8, pos / 8, k, n, n as f64 / 2.0, bound);
+        }
+      }
+      // every byte VALUE, pooled over all positions: n*len/256 +- 8 sigma (a uniform source fails one value with
+      // probability < 1e-14; a source that never hands out 0x00, or favours some value, is far outside)
+      let total = (n * nl) as f64;
+      let expect = total / 256.0;
+      if expect >= 400.0 {
+        let bound = 8.0 * (expect * (1.0 - 1.0 / 256.0)).sqrt();
+        for (v, k) in value_counts.iter().enumerate() {
+          if ((*k as f64) - expect).abs() > bound {
+            vio!("C10:nonce-byte-value-not-uniform:{}:{}:{}", p.label(), c.layer.label(), mode; "byte value 0x{:02x} occurs {} times in the {} nonce bytes of {} builds (allowed {:.0} +- {:.0})", v, k, total, n, expect, bound);
+          }
         }
       }
       for (j, seen) in byte_values.iter().enumerate() {
@@ -220,18 +234,24 @@ impl Sub for RngFailure {
       }
     };
     let vi = Proto::LOCAL.iter().position(|q| *q == p).unwrap_or(3);
-    let out = match std::process::Command::new(exe)
-      .args(["c10-rngfail", &vi.to_string(), if c.layer == Layer::Generic { "0" } else { "1" }, &c.attempts.to_string()])
-      .env("LD_PRELOAD", &lib)
-      .env(if c.pattern == 0 { "PV_RNG_OK" } else { "PV_RNG_PATTERN" }, if c.pattern == 0 { c.ok.to_string() } else { c.pattern.to_string() })
-      .output()
-    {
-      Ok(o) => o,
-      Err(_) => return Verdict::Discard,
+    let out = match run_helper(
+      std::process::Command::new(exe)
+        .args(["c10-rngfail", &vi.to_string(), if c.layer == Layer::Generic { "0" } else { "1" }, &c.attempts.to_string()])
+        .env("LD_PRELOAD", &lib)
+        .env(if c.pattern == 0 { "PV_RNG_OK" } else { "PV_RNG_PATTERN" }, if c.pattern == 0 { c.ok.to_string() } else { c.pattern.to_string() }),
+      20,
+      &format!("C10 builds with a failing / patterned OS random source ({} {}, pattern {})", p.label(), c.layer.label(), c.pattern),
+    ) {
+      Some(o) if !o.timed_out => o,
+      Some(_) => {
+        cl.tag("helper-timed-out");
+        return Verdict::Discard;
+      }
+      None => return Verdict::Discard,
     };
-    let text = String::from_utf8_lossy(&out.stdout).to_string();
+    let text = out.stdout.clone();
     let lines: Vec<&str> = text.lines().collect();
-    if out.status.code() != Some(0) || lines.len() != c.attempts as usize {
+    if out.status.and_then(|s| s.code()) != Some(0) || lines.len() != c.attempts as usize {
       cl.tag("helper-failed");
       return Verdict::Discard;
     }
@@ -442,14 +462,14 @@ impl Sub for AcrossFork {
       Err(_) => return Verdict::Discard,
     };
     let vi = Proto::LOCAL.iter().position(|q| *q == p).unwrap_or(3);
-    let out = match std::process::Command::new(exe).args(["c10-fork", &vi.to_string(), if c.layer == Layer::Generic { "0" } else { "1" }, &c.pre.to_string(), &c.post.to_string()]).output() {
-      Ok(o) => o,
-      Err(_) => return Verdict::Discard,
+    let out = match run_helper(std::process::Command::new(exe).args(["c10-fork", &vi.to_string(), if c.layer == Layer::Generic { "0" } else { "1" }, &c.pre.to_string(), &c.post.to_string()]), 60, "C10 history continued in a forked process") {
+      Some(o) if !o.timed_out => o,
+      _ => return Verdict::Discard,
     };
-    let text = String::from_utf8_lossy(&out.stdout).to_string();
+    let text = out.stdout.clone();
     let lines: Vec<(&str, &str)> = text.lines().filter_map(|l| l.split_once(' ')).collect();
     let count = |tag: &str| lines.iter().filter(|(t, _)| *t == tag).count() as u32;
-    if out.status.code() != Some(0) || count("B") != c.pre || count("P") != c.post || count("C") != c.post || lines.iter().any(|(_, n)| hex::decode(n).is_err()) {
+    if out.status.and_then(|s| s.code()) != Some(0) || count("B") != c.pre || count("P") != c.post || count("C") != c.post || lines.iter().any(|(_, n)| hex::decode(n).is_err()) {
       // the helper process could not do its job (fork refused, build failed ...): nothing is concluded from that
       cl.tag("fork-helper-failed");
       return Verdict::Discard;
